@@ -77,6 +77,7 @@ DeletesOn(r) ==
 Mount(f, t) == [op |-> "MountBlob", from |-> f, r |-> t, c |-> "b1"]
 OpsSeqOn(r) == ReadsOn(r) \o UploadOn(r) \o PushesOn(r) \o DeletesOn(r)
 Range(s) == {s[i] : i \in 1..Len(s)}
+ScriptNames(sq) == {sq[i] : i \in 1..Len(sq)}
 ListStarts == 0..(2 * Cardinality(Repos) + 1)
 C12Ops ==
   UNION {Range(OpsSeqOn(r)) : r \in {"r1", "r2"}}
@@ -94,7 +95,13 @@ ConsEntries(o) ==
   ELSE {<<StaticCons(o)[i].n, StaticCons(o)[i].k>> : i \in 1..Len(StaticCons(o))}
 NestOps == UNION {Range(OpsSeqOn(r)) : r \in {"r1"}} \cup {Mount(f, t) : f \in {"r1", "r2"}, t \in {"r1", "r2"}}
            \cup {[op |-> "ListRepos", startpos |-> s] : s \in {0, 3}}
-TableOf(f) == [n \in Repos \cup {Star} |-> [k \in Kinds |-> IF <<n, k>> \in DOMAIN f THEN f[<<n, k>>] ELSE PolOk]]
+TableOf(f) == [n \in Repos \cup {Star} \cup {x[1] : x \in DOMAIN f} |-> [k \in Kinds |-> IF <<n, k>> \in DOMAIN f THEN f[<<n, k>>] ELSE PolOk]]
+\* ill-formed names as method arguments and as entries of backend listings
+IllNames == IF AllScopes THEN {"A", "a//a", "a/", "", "..", "A/a"} ELSE {"A", "a/", ""}     \* (AllScopes: the thorough configurations)
+SelSpecial == {{"r1", "A", "a/", ""}, {"r1", Star, "a//a"}, {}}
+IllOps == UNION {Range(ReadsOn(n) \o PushesOn(n) \o DeletesOn(n)) \cup {Mount(n, "r1"), Mount("r1", n)} : n \in IllNames}
+\* backend listings as they might come: names repeated, out of order, ill-formed
+Scripts == {<<"r1", "r1", "r2", "r2", "r2", "r3">>, <<"r2", "r1", "r1", "A", "A", "r3", "a/", "r1">>, <<"", "r4", "r4", "a//a">>, <<>>}
 NoScope == [unl |-> FALSE, set |-> {}]
 RichScope == [unl |-> FALSE, set |-> {<<"repository", "a", "pull">>, <<"repository", "../fooey", "push">>,
                                      <<"repository", "", "pull">>, <<"registry", "catalog", "*">>}]
@@ -122,21 +129,36 @@ FInit ==
 
 \* a failing backend listing: from two start points, failing after 0..|Repos| items
 FailPoints(o) == IF o.op = "ListRepos" /\ o.startpos \in {0, 3} THEN 0..Cardinality(Repos) ELSE {}
+FaultCodes == {"UNSUPPORTED", "DENIED", "BLOB_UNKNOWN"}
+\* ill-formed names and scripted listings are swept from the fully populated initial state
+\* (what the backend holds does not enter into them)
+IllHere == step = 0 /\ \A r \in Repos : blobs[r] # {}
 FNext ==
   /\ step < MaxSteps
   /\ step' = step + 1
   /\ kind' = kind
   /\ CASE kind = "checker" ->
-            \E o \in C12Ops : \E f \in [Entries(o) -> {PolOk} \cup ErrIds] :
+            \E o \in C12Ops \cup (IF IllHere THEN IllOps ELSE {}) : \E f \in [Entries(o) -> {PolOk} \cup ErrIds] :
                /\ \/ CheckedApply(o, TableOf(f), NoScope) /\ last' = [o |-> o, pol |-> TableOf(f), sc |-> NoScope, allow |-> {}, fail |-> -1]
+                  \/ \E code \in FaultCodes : CheckedFault(o, TableOf(f), NoScope, code)
+                        /\ last' = [o |-> o, pol |-> TableOf(f), sc |-> NoScope, allow |-> {}, fail |-> -2, code |-> code]
                   \/ \E k \in FailPoints(o) : CheckedListFail(o, TableOf(f), NoScope, k)
                                                /\ last' = [o |-> o, pol |-> TableOf(f), sc |-> NoScope, allow |-> {}, fail |-> k]
+                  \/ /\ o.op = "ListRepos" /\ o.startpos = 0 /\ IllHere
+                     /\ \E sq \in Scripts : \E g \in [ScriptNames(sq) \X {"Read"} -> {PolOk} \cup ErrIds] : \E k \in {-1, 2} :
+                          /\ CheckedListing(o, TableOf(g), NoScope, TRUE, sq, k)
+                          /\ last' = [o |-> o, pol |-> TableOf(g), sc |-> NoScope, allow |-> {}, fail |-> -3]
        [] kind = "select" ->
-            \E o \in C12Ops : \E allow \in SUBSET (Repos \cup {Star}) :
+            \E o \in C12Ops \cup (IF IllHere THEN IllOps ELSE {}) :
+            \E allow \in (IF o \in C12Ops THEN SUBSET (Repos \cup {Star}) ELSE {}) \cup SelSpecial :
                /\ \/ CheckedApply(o, SelPol(allow, Repos), NoScope)
                      /\ last' = [o |-> o, pol |-> SelPol(allow, Repos), sc |-> NoScope, allow |-> allow, fail |-> -1]
                   \/ \E k \in FailPoints(o) : CheckedListFail(o, SelPol(allow, Repos), NoScope, k)
                                                /\ last' = [o |-> o, pol |-> SelPol(allow, Repos), sc |-> NoScope, allow |-> allow, fail |-> k]
+                  \/ /\ o.op = "ListRepos" /\ o.startpos = 0 /\ IllHere
+                     /\ \E sq \in Scripts : \E k \in {-1, 2} :
+                          /\ CheckedListing(o, SelPol(allow, Repos), NoScope, TRUE, sq, k)
+                          /\ last' = [o |-> o, pol |-> SelPol(allow, Repos), sc |-> NoScope, allow |-> allow, fail |-> -3]
        [] kind = "nest" ->
             \* two stacked checkers, every pair of policies over the entries the call consults
             \* (first call only, one error identity: the pairs of tables are what is swept here)
@@ -147,6 +169,8 @@ FNext ==
        [] kind = "sub" ->
             \E o \in SubOps(IF step < HostileSteps THEN CallerNames ELSE CallerNames \ HostileNames) : \E sc \in ScopesFor(o) :
                /\ \/ SubApply(o, sc) /\ last' = [o |-> o, pol |-> <<>>, sc |-> sc, allow |-> {}, fail |-> -1]
+                  \/ \E code \in FaultCodes : SubFault(o, sc, code)
+                        /\ last' = [o |-> o, pol |-> <<>>, sc |-> sc, allow |-> {}, fail |-> -2, code |-> code]
                   \/ \E k \in (IF o.op = "ListRepos" THEN 0..Cardinality(Repos) ELSE {}) :
                         SubListFail(o, sc, k) /\ last' = [o |-> o, pol |-> <<>>, sc |-> sc, allow |-> {}, fail |-> k]
 FSpec == FInit /\ [][FNext]_mcvars
@@ -154,19 +178,19 @@ FSpec == FInit /\ [][FNext]_mcvars
 \* ------------------------------------------------------------ properties --
 NestIsConjunction == [][kind = "nest" => NestStep(last'.o, last'.pol)]_mcvars
 \* one level is the single checker
-NestOfOne == [][kind = "checker" /\ last'.fail < 0 =>
+NestOfOne == [][kind = "checker" /\ last'.fail = -1 =>
                   LET p == <<last'.pol>> IN
                   (NestFirstRej(last'.o, p) > 0) = Rejected(last'.o, last'.pol)]_mcvars
 IsC12 == kind \in {"checker", "select"}
 RejectedNeverReachesBackend == [][IsC12 => RejectedNeverReachesBackendStep(last'.o, last'.pol)]_mcvars
 ListingFiltered == [][IsC12 => ListingFilteredStep(last'.o, last'.pol)]_mcvars
 ErrorIsPolicyError == [][IsC12 => ErrorIsPolicyErrorStep(last'.o, last'.pol)]_mcvars
-AllowedIsTransparent == [][(IsC12 /\ last'.fail < 0) => AllowedIsTransparentStep(last'.o, last'.pol)]_mcvars
+AllowedIsTransparent == [][(IsC12 /\ last'.fail = -1) => AllowedIsTransparentStep(last'.o, last'.pol)]_mcvars
 SelectErrorKinds == [][kind = "select" => SelectKindsOK(last'.allow, Repos)]_mcvars
 \* consultations are exactly: the static ones up to the first failure; for a listing that was
 \* let through, then one Read consultation per item the backend listed
 ConsultationsExact ==
-  [][(IsC12 /\ last'.fail < 0) => LET o == last'.o
+  [][(IsC12 /\ last'.fail = -1) => LET o == last'.o
                   cs == StaticCons(o) IN
               IF Rejected(o, last'.pol) THEN cons' = SubSeq(cs, 1, FirstFail(cs, last'.pol))
               ELSE IF o.op = "ListRepos" THEN Len(cons') = 1 + Len(res'.items) /\ cons'[1] = cs[1]
@@ -176,12 +200,23 @@ ConsultationsExact ==
 FailedListingIsPrefix ==
   [][(IsC12 /\ last'.fail >= 0) =>
        /\ ~wres'.ok /\ wpe' = None /\ bcalls' = BCallsOf(last'.o) /\ BackendUnchanged
-       /\ LET full == Filter(res'.items, LAMBDA x : last'.pol[x]["Read"] = PolOk) IN
+       /\ LET full == Filter(res'.items, LAMBDA x : Allowed(last'.pol, x)) IN
           Len(wres'.items) <= Len(full) /\ wres'.items = SubSeq(full, 1, Len(wres'.items))]_mcvars
+\* a call the backend refuses: its error, the one call (under the prefix), nothing changed
+BackendFaultIsResult ==
+  [][last'.fail = -2 => /\ FaultedStep(last'.code)
+                        /\ IF kind = "sub" THEN ConfinedCalls(bcalls') /\ bcalls' = BCallsOf(MapOp(last'.o))
+                                          ELSE bcalls' = BCallsOf(last'.o) /\ ~Rejected(last'.o, last'.pol)]_mcvars
+\* whatever the backend's listing looks like: what is delivered is exactly the allowed entries,
+\* in the order and as often as they came; the backend is asked once and nothing changes
+ScriptedListingFiltered ==
+  [][last'.fail = -3 => /\ \A i \in 1..Len(wres'.items) : Allowed(last'.pol, wres'.items[i])
+                        /\ \E k \in 0..Len(res'.items) : wres'.items = Filter(SubSeq(res'.items, 1, k), LAMBDA x : Allowed(last'.pol, x))
+                        /\ BackendUnchanged /\ bcalls' = BCallsOf(last'.o) /\ wpe' = None]_mcvars
 IsSub == kind = "sub"
 Confined == [][IsSub => ConfinedCalls(bcalls')]_mcvars
-EqualsRestriction == [][(IsSub /\ last'.fail < 0) => EqualsRestrictionStep(last'.o)]_mcvars
-ListingExact == [][(IsSub /\ last'.fail < 0) => ListingExactStep(last'.o)]_mcvars
+EqualsRestriction == [][(IsSub /\ last'.fail = -1) => EqualsRestrictionStep(last'.o)]_mcvars
+ListingExact == [][(IsSub /\ last'.fail = -1) => ListingExactStep(last'.o)]_mcvars
 SubFailedListingIsPrefix == [][(IsSub /\ last'.fail >= 0) => SubFailedListingStep(last'.o) /\ ConfinedCalls(bcalls')]_mcvars
 ScopesRewritten == [][IsSub => ScopesRewrittenStep(last'.sc) /\ (last'.o.op \in IfaceOps /\ (\A n \in OpNames(last'.o) : ValidName(n)) => Len(bscopes') = 1)]_mcvars
 \* the name mapping itself, over every enumerated caller string
